@@ -14,6 +14,10 @@ import urllib.request
 from common import CACHE, ENV
 
 LOOP = "127.0.0.1"
+# The hook build unwinds panics so that the in-process driver can report them; the shipped profile aborts.  A panic
+# message in a proxy's stderr therefore means: in the shipped build the process would be dead.  Collected here and
+# turned into a violation by Report.finish().
+PANICS = []
 
 
 _port_lock = threading.Lock()
@@ -149,6 +153,12 @@ class Proxy:
             try:
                 self.stderr.close()
             except Exception:
+                pass
+            try:
+                for line in open(os.path.join(self.dir, "stderr.log"), errors="replace"):
+                    if "panicked at" in line:
+                        PANICS.append("%s: %s" % (os.path.basename(self.dir), line.strip()[:300]))
+            except OSError:
                 pass
             return rc
 
